@@ -14,7 +14,8 @@ import (
 // See DESIGN.md section 4 (C20).
 
 type c20Op struct {
-	Kind  string `json:"kind"` // "from", "clean", "cleanall"
+	Kind  string `json:"kind"`               // "from", "clean", "cleanall"
+	Sp    int    `json:"spelling,omitempty"` // which spelling of the name(s) this call uses
 	Set   int    `json:"set"`
 	Name  int    `json:"name,omitempty"`
 	Names []int  `json:"names,omitempty"`
@@ -76,6 +77,18 @@ func (c20Checker) Meta() CheckerMeta {
 		},
 		QuickRuns: 10000, QuickRace: 2000,
 	}
+}
+
+// spelling: how a call writes a name. Loaders whose Abs normalises (FSLoader, the virtual
+// ones) treat "./n0.tpl", "zz/../n0.tpl" and "n0.tpl" as one name, so calls may mix
+// spellings freely; HttpFilesystemLoader passes names through, so there every call uses
+// the run's one spelling of the name.
+func (sp *c20Spec) spelling(set, name, variant int) string {
+	switch sp.Loaders[set] {
+	case "fs", "virt", "virtrel":
+		return []string{"", "./", "zz/../", "./zz/../"}[variant%4] + sp.Names[name]
+	}
+	return sp.Spell[name]
 }
 
 func c20TopContent(name string, ver int, hasInc bool, inc string, corrupt bool) string {
@@ -161,7 +174,7 @@ func c20Gen(tp *Tapes) *c20Spec {
 			nops := 1 + g.Draw(5)
 			var ops []c20Op
 			for o := 0; o < nops; o++ {
-				op := c20Op{Set: g.Draw(nSets)}
+				op := c20Op{Set: g.Draw(nSets), Sp: g.Draw(4)}
 				switch g.Draw(8) {
 				case 6:
 					op.Kind = "clean"
@@ -485,13 +498,13 @@ func (c20Checker) Run(tp *Tapes, opt RunOpt) *Outcome {
 						set := sets[op.Set]
 						switch op.Kind {
 						case "from":
-							t, err := set.FromCache(sp.Spell[op.Name])
+							t, err := set.FromCache(sp.spelling(op.Set, op.Name, op.Sp))
 							r.tpl = t
 							r.err = errStr(err)
 						case "clean":
 							var ns []string
 							for _, n := range op.Names {
-								ns = append(ns, sp.Spell[n])
+								ns = append(ns, sp.spelling(op.Set, n, op.Sp))
 							}
 							set.CleanCache(ns...)
 						case "cleanall":
